@@ -403,6 +403,7 @@ func walMain(args []string) int {
 	bounds := fs.Int("boundary", 0, "histories that reopen the queue on the last slot of an index page")
 	rollfails := fs.Int("rollfail", 0, "histories in which the roll-over to the next data page fails (page acquisition fault)")
 	nconc := fs.Int("concurrent", 0, "concurrent-appender histories (gated)")
+	ngconc := fs.Int("groupconc", 0, "histories with one consuming and one acknowledging thread on the same group (gated)")
 	scratch := fs.String("scratch", "", "scratch directory")
 	_ = fs.Parse(args)
 	if *scratch == "" {
@@ -550,6 +551,102 @@ func walMain(args []string) int {
 			run.fq.Close()
 		}
 		distinct["c"+fmt.Sprint(sc.Choices)] = true
+		restore()
+		os.RemoveAll(root)
+	}
+	// one thread consumes, another one acknowledges on the same group (the documented use), gated at every store
+	// into the group's meta page; then close and reopen: every position survives
+	for c := 0; c < *ngconc; c++ {
+		root := filepath.Join(*scratch, fmt.Sprintf("gc%d", c))
+		w := walwrap.NewWorld(root, rec)
+		restore := w.Install()
+		hr := rand.New(rand.NewSource(rng.Int63()))
+		run := &walRun{w: w, rec: rec, rng: hr}
+		rec.Reset(trace.F{"mode": "groupconc", "c": c})
+		if err := run.open(); err != nil {
+			fmt.Println("open:", err)
+			return 2
+		}
+		w.BindThread("main")
+		rec.Emit("Op", trace.F{"t": "main", "op": "CreateGroup", "g": "g1"})
+		g, err := run.fq.GetOrCreateConsumerGroup("g1")
+		if err != nil {
+			sum.Unresolved = append(sum.Unresolved, "group: "+err.Error())
+			restore()
+			continue
+		}
+		run.groups["g1"] = g
+		run.proj(nil)
+		m := 4 + hr.Intn(4)
+		for i := 0; i < m; i++ {
+			run.put(1 + hr.Intn(40))
+		}
+		c0 := 2 + hr.Intn(2)
+		for i := 0; i < c0; i++ {
+			rec.Emit("Op", trace.F{"t": "main", "op": "Consume", "g": "g1"})
+			sq := g.Consume()
+			run.proj(trace.F{"t": "main", "res": sq})
+		}
+		sc := sched.New(rng.Int63())
+		sc.StepWait = 25 * time.Millisecond
+		w.GateGroups = true
+		w.Gate = func(t, label string) {
+			if t != "main" && label == "group-store" {
+				sc.Yield(t, label)
+			}
+		}
+		var wg sync.WaitGroup
+		lastConsumed := int64(-9)
+		nacks := 1 + hr.Intn(c0)
+		sc.Spawn("k1")
+		sc.Spawn("c1")
+		wg.Add(2)
+		go func() { // the acknowledging thread: positions consumed before the threads started
+			defer wg.Done()
+			defer sc.Done("k1")
+			w.BindThread("k1")
+			sc.Yield("k1", "start")
+			for sq := int64(c0 - nacks); sq < int64(c0); sq++ {
+				w.CurrentOp(trace.F{"op": "Ack", "g": "g1", "s": sq})
+				g.Ack(sq)
+				w.FinishOp()
+			}
+		}()
+		go func() { // the consuming thread
+			defer wg.Done()
+			defer sc.Done("c1")
+			w.BindThread("c1")
+			sc.Yield("c1", "start")
+			for i := c0; i < m; i++ {
+				w.CurrentOp(trace.F{"op": "Consume", "g": "g1"})
+				lastConsumed = g.Consume()
+				w.FinishOp()
+			}
+		}()
+		if !sc.Run() {
+			sc.ReleaseAll()
+			sum.Unresolved = append(sum.Unresolved, "consume/ack threads stuck")
+		}
+		wg.Wait()
+		w.Gate, w.GateGroups = nil, false
+		w.BindThread("main")
+		run.nextID = 1000
+		run.proj(trace.F{"t": "c1", "res": lastConsumed})
+		rec.Emit("Down", trace.F{"how": "close"})
+		run.fq.Close()
+		if err := run.open(); err == nil {
+			rec.Emit("Reopen", trace.F{})
+			run.proj(nil)
+			run.put(5)
+			if g2, err := run.fq.GetOrCreateConsumerGroup("g1"); err == nil {
+				run.groups["g1"] = g2
+				rec.Emit("Op", trace.F{"t": "main", "op": "Consume", "g": "g1"})
+				sq := g2.Consume()
+				run.proj(trace.F{"t": "main", "res": sq})
+			}
+			run.fq.Close()
+		}
+		distinct["gc"+fmt.Sprint(sc.Choices)] = true
 		restore()
 		os.RemoveAll(root)
 	}
